@@ -305,9 +305,9 @@ type combo struct {
 
 type c15scn struct {
 	name   string
-	confs  []conf  // product confs x cases: two free choice points ...
+	confs  []conf // product confs x cases: two free choice points ...
 	cases  []pcase
-	combos []combo // ... or an explicit list: one free choice point
+	combos []combo  // ... or an explicit list: one free choice point
 	faults []string // alternatives of the per-page-request choice (index 0 = "ok"; others cost F)
 	manual bool
 	quick  vs.Bounds
@@ -756,7 +756,8 @@ func scenarios(thorough bool) []*c15scn {
 	if thorough {
 		// broader at T=2: every 2-page script x every threshold for Scan and SliceMap; 4-page scripts
 		add(&c15scn{name: "broad-2pages+", combos: byWeight(cross(product(allPrefetch, []int{3}, []int{prepNo}, []int{consScan, consSliceMap}), autoCases(scripts(2, 2, rowsAlpha)))), quick: b(2), thor: b(2)})
-		add(&c15scn{name: "four-pages+", combos: cross([]conf{scan(0.5), {0.25, 3, prepSkip, consMapScan}}, []pcase{sc(2, 0, 3, 0), sc(1, 1, 1, 1), sc(3, 3, 0, 2)}), quick: b(2), thor: b(2)})
+		add(&c15scn{name: "four-pages+", combos: byWeight(cross([]conf{scan(0.5), {0.25, 3, prepSkip, consMapScan}, {1, 100, prepNo, consSliceMap}, {0, 3, prepNoSkip, consScanner}},
+			[]pcase{sc(2, 0, 3, 0), sc(1, 1, 1, 1), sc(3, 3, 0, 2), sc(0, 0, 0, 1)})), quick: b(2), thor: b(2)})
 		// ALL interleavings (no preemption bound, no timer/failure deviation) of consumer vs prefetch for the smallest script that prefetches
 		add(&c15scn{name: "all-interleavings+", combos: []combo{{scan(0.5), sc(2, 1)}}, quick: vs.Bounds{P: -1}, thor: vs.Bounds{P: -1}})
 	}
